@@ -166,6 +166,10 @@ def _run_job(vx, cases, np, timeout, keep=False, env_extra=None, tscale=1):
     env = dict(os.environ); env.update(MPI_ENV)
     env['TMPDIR'] = base
     if env_extra: env.update(env_extra)
+    # header option mpiio=<component>: the job runs on that MPI-IO implementation of Open MPI (e.g. romio321 instead of the default OMPIO);
+    # it is part of the case text, so a replay selects it again
+    for c in cases:
+        if c.opts.get('mpiio'): env['OMPI_MCA_io'] = str(c.opts['mpiio'])
     cmd = ['mpirun', '-np', str(np), '--bind-to', 'none', vx, job, outdir, work]
     t0 = time.time()
     p = subprocess.Popen(cmd, stdout=subprocess.PIPE, stderr=subprocess.STDOUT, env=env, start_new_session=True)
